@@ -280,7 +280,7 @@ func init() {
 		ID:    "C19",
 		Level: "fault_enumeration",
 		Title: "A failure anywhere surfaces as an error - never as a partial result",
-		Rule: "rapid draws a document and a query from 33 construct templates (filter, CASE, IN list, BETWEEN, function arguments, GROUP BY/HAVING/aggregates, " +
+		Rule: "rapid draws a document and a query from 40 construct templates (filter, CASE, IN list, BETWEEN, function arguments, GROUP BY/HAVING/aggregates, " +
 			"joins incl. PARALLEL/HASH, CTEs (also referenced twice), derived tables, select-item/IN/EXISTS subqueries on the row and on `<-`, UNION chains, " +
 			"ORDER BY/LIMIT, DISTINCT, nested FROM, LIKE/IS; Wrapped or not) and one of its fault positions; kind fn: a fault-free run counts the N " +
 			"invocations of the planted function, then EVERY k in 1..N (cap 64, reported) is executed with the function returning an error at its k-th " +
